@@ -228,3 +228,61 @@ def pair(first, second=None, shapes=None, pick=3, name=None, properties=None, bu
 
 def _plain(shape):
     return {k: (list(v) if isinstance(v, tuple) else v) for k, v in shape.items()}
+
+
+class MutableView:
+    """the verification context with every octet-string input handed out as a caller-owned MUTABLE buffer (bytearray); after
+    the contract body each buffer must still hold the octets it was created with"""
+
+    def __init__(self, vc):
+        object.__setattr__(self, "_vc", vc)
+        object.__setattr__(self, "_bufs", [])
+
+    @property
+    def mode(self):
+        return self._vc.mode
+
+    def bytes_(self, n, name):
+        d = self._vc.bytes_(n, name)
+        if self._vc.mode == "native":
+            buf = bytearray(d)
+        else:
+            from .shadows import SByteArray
+
+            buf = SByteArray(d)
+        self._bufs.append((name, buf, d))
+        return buf
+
+    def __getattr__(self, k):
+        return getattr(self._vc, k)
+
+    def __setattr__(self, k, v):
+        setattr(self._vc, k, v)
+
+
+def mutable(base, shapes=None, pick=3, properties=None):
+    """register `<contract>.mutable_buffers`: the same contract text with bytearray inputs + the frame clause on each of them"""
+    cname = base.cname + ".mutable_buffers"
+    props = list(properties or dict.fromkeys(list(base.properties) + ["C19"]))
+
+    @contract(cname, base.target, props, stubs=list(base.stubs),
+              note="%s with every octet-string input given as a caller-owned bytearray: same clauses, and the buffers come back unchanged" % base.cname)
+    def body(vc, **shape):
+        mv = MutableView(vc)
+        base(mv, **shape)
+        for name, buf, d in mv._bufs:
+            n = len(d)
+            vc.prove("mutable_buffer_unchanged." + name.split(".")[-1].rstrip("0123456789"), len(buf) == n and vc.and_(*[vc.eq(buf[i], d[i]) for i in range(n)]))
+
+    def default_shapes(tier):
+        ss = list(base.shapes("quick"))
+        if len(ss) <= pick:
+            return ss
+        idx = sorted({round(i * (len(ss) - 1) / (pick - 1)) for i in range(pick)}) if pick > 1 else [0]
+        return [ss[i] for i in idx]
+
+    body.shapes = shapes or default_shapes
+    body.budget_s = 120
+    body.max_paths = 3000
+    body.cost = 2
+    return body
